@@ -11,6 +11,7 @@ mod c07;
 mod c08;
 mod c08a;
 mod c08c;
+mod c08r;
 mod consts;
 mod gad;
 mod c09;
